@@ -36,6 +36,18 @@ UNITS = [
          bound="`--ñ=v`, v any single byte"),
     dict(unit="K03.split_short_attached_value_with_eq", harness="k03_split_short_attached_value_with_eq", tags=["C02"], quick=False, complete=False,
          bound="`-cw=v`, c ASCII alphanumeric, w ASCII, v any byte"),
+    dict(unit="K02.disambiguate_short_two_letters", harness="k02_disambiguate_short_two_letters", tags=["C02"], quick=False, complete=False,
+         bound="clusters `-xy`, x,y in {a,b,c}, every subset of {a,b,c} as declared short flags and as declared short arguments"),
+    dict(unit="K05.shell_quote_ascii2", harness="k05_shell_quote_ascii2", tags=["C15"], quick=True, complete=False,
+         features="autocomplete", bound="all ASCII strings of length 2"),
+    dict(unit="K05.shell_quote_ascii3", harness="k05_shell_quote_ascii3", tags=["C15"], quick=False, complete=False,
+         features="autocomplete", bound="all ASCII strings of length 3"),
+    dict(unit="K10.flag_line_beats_env", harness="k10_flag_line_beats_env", tags=["C18"], quick=True, complete=False, stubbing=True,
+         bound="2 items from {-a, -b, word} with every ledger; std::env::var_os nondeterministic; flag with and without an absent value"),
+    dict(unit="K10.argument_line_beats_env", harness="k10_argument_line_beats_env", tags=["C18", "C02"], quick=True, complete=False, stubbing=True,
+         bound="2 items from {-a, -b, word} with every ledger; std::env::var_os nondeterministic"),
+    dict(unit="K14.first_line_two_tokens", harness="k14_first_line_two_tokens", tags=["C12", "C04"], quick=True, complete=False,
+         bound="two Text tokens over 2+2 ASCII bytes"),
     # K08 / K09: documentation leaves
     dict(unit="K08.escape_special_one_fragment", harness="k08_escape_special_one_fragment", tags=["C16"], quick=True, complete=False,
          features="docgen", bound="one Special/SpecialNoNewline fragment of 2 ASCII bytes, both apostrophe modes"),
@@ -64,6 +76,8 @@ def _run_one(repo, u, target, work, timeout_s):
     cmd = ["cargo", "kani", "--target-dir", target, "--output-format=terse", "--harness", u["harness"]]
     if feat:
         cmd += ["--features", feat]
+    if u.get("stubbing"):
+        cmd += ["-Z", "stubbing"]
     env = dict(os.environ, PACAK_BPAF_VERIF_DIR=VERIF, CARGO_NET_OFFLINE="true")
     env.pop("RUSTFLAGS", None)
     t0 = time.time()
